@@ -624,7 +624,49 @@ def report_d10(ctx, w, d10):
         ctx.fail(d10[0][0], d10[0][1], finding='D10', family='pair')
 
 
+def flatten_shared(ctx, n):
+    """directed family (implementation only): failures in which ONE exception object occurs at several places (one error
+    seen by several tasks) or in which distinct leaves compare equal: flattened() keeps every leaf, by identity, in order"""
+    import usim
+
+    class Eq(Exception):
+        def __eq__(self, other):
+            return type(other) is type(self) and other.args == self.args
+
+        def __hash__(self):
+            return hash(self.args)
+    rng = ctx.rng
+    for _ in range(n):
+        pool = [KeyError(1), IndexError(2), Eq(5), Eq(5), Eq(6), ValueError(3)]
+        leaves = []
+
+        def tree(depth):
+            kids = []
+            for _ in range(rng.choice([1, 2, 3])):
+                if depth < 3 and rng.random() < 0.4:
+                    kids.append(tree(depth + 1))
+                else:
+                    x = rng.choice(pool)
+                    leaves.append(x)
+                    kids.append(x)
+            return usim.Concurrent(*kids)
+        case = {'kind': 'flatten-shared'}
+        try:
+            exc = tree(0)
+            got = list(exc.flattened().children)
+        except BaseException as e:   # noqa
+            ctx.fail(case, 'building / flattening a failure with shared or equal leaves raised %r' % (e,), family='flatten-shared')
+            continue
+        case['leaves'] = [repr(x) for x in leaves]
+        ctx.count(('flatten-shared', tuple(case['leaves'])), nontrivial=len(leaves) > 2)
+        ctx.bump('family:flatten-shared')
+        if len(got) != len(leaves) or any(a is not b for a, b in zip(got, leaves)):
+            ctx.fail(case, 'flattened() has the children %r, the leaves in order are %r (same object or equal leaves must '
+                           'all be kept)' % (got, leaves), family='flatten-shared')
+
+
 def run(ctx):
+    flatten_shared(ctx, ctx.n(60, 1500))
     w = World()
     d10 = []
     raised, excs, handlers, Hs = run_table(ctx, w, d10)
